@@ -176,7 +176,9 @@ def plan(prop, tier):
                          targets=targets(types)),
                 TableJob("c01_u2s", MUT + EXACT, MUT + EXACT, targets=sets),
                 TableJob("c01_entry", ["Insert", "Remove", "RemoveKeepTree", "Entry", "GetMut"], ["Entry", "GetMut"],
-                         vals="{1,2}", maxcount=2 if q else 3, entrydepth=1 if q else 2, targets=targets(types)),
+                         vals="{1,2}", maxcount=2 if q else 3, entrydepth=1, targets=targets(types)),
+                *([] if q else [TableJob("c01_entry2", ["Insert", "Remove", "RemoveKeepTree", "Entry"], ["Entry"],
+                                         vals="{1,2}", maxcount=2, entrydepth=2, targets=targets(QUICK_TYPES), timeout=2400)]),
                 u3c("c01_u3c", ["Insert", "Remove", "Retain", "Get"], ["Get"])] + \
                bnd("c01", EXACT + ["Insert", "Remove", "RemoveKeepTree", "RemoveChildren", "Retain"], muts=[])
     if prop == "C02":
@@ -187,7 +189,7 @@ def plan(prop, tier):
         hm = ["Entry", "GetMut", "ViewSet", "ViewRemove"]
         return [TableJob("c04_u2", MUT + ["Len"], MUT + ["Len"], viewacct=not q, targets=both),
                 TableJob("c04_handles", core + hm + ["Len"], hm + core + ["Len"], vals="{1,2}" if not q else "{1}",
-                         maxcount=2 if q else 3, entrydepth=1 if q else 2, targets=targets(types))]
+                         maxcount=2 if q else 3, entrydepth=1, targets=targets(types), timeout=2400)]
     if prop == "C09":
         return [TableJob("c09_u2", MUT + ["Spm", "Cover", "Lpm"], ["Spm", "Cover"], targets=both)] + bnd("c09", ["Spm", "Cover"]) + deep("c09", ["Spm", "Cover"], 4, 7)
     if prop == "C10":
@@ -259,7 +261,9 @@ def plan(prop, tier):
                      release_targets=targets(["u8", "u32", "u128", "Ipv6Net"] if q else bt, ("map",), ("stretch:2",))),
             # user callbacks that panic at every invocation index: the map stays valid (C20, second half)
             TableJob("c20_faults", core + ["RetainPanic", "Entry"], ["Retain", "Entry"], maxcount=3 if q else 4,
-                     entrydepth=1 if q else 2, targets=targets(types) + sets),
+                     entrydepth=1, targets=targets(types) + sets, timeout=2400),
+            *([] if q else [TableJob("c20_faults2", ["Insert", "RemoveKeepTree", "Entry"], ["Entry"], vals="{1}", maxcount=2,
+                                     entrydepth=2, targets=targets(QUICK_TYPES), timeout=2400)]),
             # the listed finding F7: OccupiedEntry used after its remove()
             TableJob("c20_f7", ["Insert", "Remove", "Entry"], ["Entry"], maxcount=2, uar=True, targets=targets(["u32", "Ipv4Net"])),
         ]
